@@ -20,6 +20,7 @@ import (
 	"encoding/binary"
 	"fmt"
 	"os"
+	"path/filepath"
 	"regexp"
 	"sort"
 	"strconv"
@@ -37,8 +38,10 @@ import (
 	"github.com/algorand/go-algorand/data/bookkeeping"
 	"github.com/algorand/go-algorand/ledger/ledgercore"
 	"github.com/algorand/go-algorand/ledger/store/trackerdb"
+	"github.com/algorand/go-algorand/ledger/store/trackerdb/sqlitedriver"
 	"github.com/algorand/go-algorand/logging"
 	"github.com/algorand/go-algorand/protocol"
+	"github.com/algorand/go-algorand/util/db"
 )
 
 // ---------- protocols with a short catchpoint lookback ----------
@@ -98,8 +101,15 @@ type vc14Mod struct {
 	old   []byte                 // class 2: KvValueDelta.OldData
 }
 
+type vc14Cre struct {
+	cidx    uint64
+	created bool
+	creator basics.Address
+}
+
 type vc14Block struct {
 	mods   []vc14Mod
+	cre    []vc14Cre // StateDelta.Creatables (only the C16 generator fills it)
 	totals ledgercore.AccountTotals
 	seed   [32]byte
 }
@@ -293,6 +303,16 @@ func (b *vc14Block) build(rnd basics.Round, proto protocol.ConsensusVersion) (bo
 			}
 			delta.KvMods[m.key] = ledgercore.KvValueDelta{Data: m.data, OldData: m.old}
 		}
+	}
+	for _, c := range b.cre {
+		if delta.Creatables == nil {
+			delta.Creatables = make(map[basics.CreatableIndex]ledgercore.ModifiedCreatable)
+		}
+		ct := basics.AssetCreatable
+		if vc14IsApp(c.cidx) {
+			ct = basics.AppCreatable
+		}
+		delta.Creatables[basics.CreatableIndex(c.cidx)] = ledgercore.ModifiedCreatable{Ctype: ct, Created: c.created, Creator: c.creator}
 	}
 	delta.Totals = b.totals
 	return blk, delta
@@ -565,6 +585,29 @@ type vc14Cfg struct {
 	tracking     int64
 	mem          merkletrie.MemoryConfig
 	memID        int
+	crash        bool // on-disk tracker DB: the node can lose power between the commit transaction and the second stage
+}
+
+// vc14Blocker sits in front of the catchpoint tracker.  When armed it parks the commit syncer right after the
+// tracker commit transaction became durable (postCommit of every tracker done) and before the catchpoint
+// tracker's postCommitUnlocked (first stage / second stage / pruning): the spot where the harness pulls the plug.
+type vc14Blocker struct {
+	emptyTracker
+	mu      sync.Mutex
+	armed   bool
+	entered chan struct{}
+	release chan struct{}
+}
+
+func (b *vc14Blocker) postCommitUnlocked(ctx context.Context, dcc *deferredCommitContext) {
+	b.mu.Lock()
+	armed := b.armed
+	b.armed = false
+	b.mu.Unlock()
+	if armed {
+		close(b.entered)
+		<-b.release
+	}
 }
 
 var vc14MemConfigs = []merkletrie.MemoryConfig{
@@ -604,6 +647,7 @@ type vc14World struct {
 	conf config.Local
 	ml   *mockLedgerForTracker
 	ct   *catchpointTracker
+	blk  *vc14Blocker
 	sink *vc14LogSink
 	log  logging.Logger
 	hot  string
@@ -627,7 +671,7 @@ func vc14Open(t *testing.T, h *vc14History, cfg vc14Cfg) *vc14World {
 	w.conf.CatchpointFileHistoryLength = -1
 	w.hot, w.cold = t.TempDir(), t.TempDir()
 	trackerdb.TrieMemoryConfig = cfg.mem
-	w.ml = makeMockLedgerForTrackerWithLogger(t, true, 1, h.proto.ver, []map[basics.Address]basics.AccountData{h.genesis}, w.log)
+	w.ml = makeMockLedgerForTrackerWithLogger(t, !cfg.crash, 1, h.proto.ver, []map[basics.Address]basics.AccountData{h.genesis}, w.log)
 	w.openTrackers(true)
 	return w
 }
@@ -646,7 +690,8 @@ func (w *vc14World) openTrackers(first bool) {
 	} else {
 		w.ml.trackers = trackerRegistry{log: w.log}
 	}
-	err := w.ml.trackers.initialize(w.ml, []ledgerTracker{au, ct, ao, &txTail{}}, w.conf)
+	w.blk = &vc14Blocker{}
+	err := w.ml.trackers.initialize(w.ml, []ledgerTracker{au, w.blk, ct, ao, &txTail{}}, w.conf)
 	require.NoError(w.t, err)
 	err = w.ml.trackers.loadFromDisk(w.ml)
 	require.NoError(w.t, err)
@@ -688,6 +733,76 @@ func (w *vc14World) opReload() {
 	w.settle()
 }
 
+// opCrash: committedUpTo(r); if a commit happens, the tracker DB files are copied at the moment the commit
+// transaction is durable and the catchpoint tracker has not yet run its postCommitUnlocked; the node that
+// goes on is the one that reopens the COPY (loadFromDisk -> recoverFromCrash -> replay).  The original is
+// released and thrown away.  When no commit happens this is a plain reload.
+func (w *vc14World) opCrash(r uint64) (crashed bool) {
+	trackerdb.TrieMemoryConfig = w.cfg.mem
+	w.settle()
+	w.ml.trackers.mu.Lock()
+	w.ml.trackers.lastFlushTime = time.Time{}
+	w.ml.trackers.mu.Unlock()
+	b := w.blk
+	b.mu.Lock()
+	b.armed, b.entered, b.release = true, make(chan struct{}), make(chan struct{})
+	b.mu.Unlock()
+	w.ml.trackers.committedUpTo(basics.Round(r))
+	done := make(chan struct{})
+	go func() { w.ml.trackers.waitAccountsWriting(); close(done) }()
+	select {
+	case <-b.entered:
+		crashed = true
+	case <-done:
+	}
+	if !crashed {
+		b.mu.Lock()
+		b.armed = false
+		b.mu.Unlock()
+		w.opReload()
+		return false
+	}
+	old := w.ml
+	// a new log sink: what the original still writes after the release is not the surviving node's
+	w.sink = &vc14LogSink{}
+	w.log = logging.NewLogger()
+	w.log.SetOutput(w.sink)
+	w.log.SetLevel(logging.Info)
+	w.ml = vc14Fork(w.t, old, w.log)
+	close(b.release)
+	<-done
+	old.Close()
+	w.openTrackers(false)
+	w.settle()
+	return true
+}
+
+// vc14Fork: mockLedgerForTracker.fork with a caller-supplied logger
+func vc14Fork(t *testing.T, ml *mockLedgerForTracker, log logging.Logger) *mockLedgerForTracker {
+	require.False(t, ml.inMemory)
+	fn := filepath.Join(t.TempDir(), fmt.Sprintf("fork.%d", crypto.RandUint64()))
+	ml.mu.RLock()
+	n := &mockLedgerForTracker{inMemory: false, log: log, blocks: append([]blockEntry{}, ml.blocks...),
+		deltas: append([]ledgercore.StateDelta{}, ml.deltas...), accts: ml.accts, filename: fn,
+		consensusParams: ml.consensusParams, consensusVersion: ml.consensusVersion, trackers: trackerRegistry{log: log}}
+	ml.mu.RUnlock()
+	ml.dbs.Vacuum(context.Background())
+	for _, ext := range []string{"", "-shm", "-wal"} {
+		b, err := os.ReadFile(ml.filename + ext)
+		if err != nil && ext != "" {
+			continue
+		}
+		require.NoError(t, err)
+		require.NoError(t, os.WriteFile(fn+ext, b, 0600))
+	}
+	dbs, err := db.OpenPair(fn, false)
+	require.NoError(t, err)
+	dbs.Rdb.SetLogger(log)
+	dbs.Wdb.SetLogger(log)
+	n.dbs = sqlitedriver.MakeStore(dbs)
+	return n
+}
+
 // the root of the trie a fresh reader finds in the tracker DB
 func (w *vc14World) committedRoot() (root crypto.Digest) {
 	err := w.ml.dbs.Transaction(func(ctx context.Context, tx trackerdb.TransactionScope) error {
@@ -718,6 +833,15 @@ func (w *vc14World) observe() []interface{} {
 		first = vL(dbRound, info.TrieBalancesHash[:], protocol.EncodeReflect(&info.Totals), info.StateProofVerificationHash[:],
 			info.OnlineAccountsHash[:], info.OnlineRoundParamsHash[:])
 	}
+	// first stages that were completed and left behind inside this operation (a recovery followed by the
+	// flush of replay): their digests are needed for the oracle labels
+	for back := uint64(1); back < w.h.proto.lookback && back <= dbRound; back++ {
+		if _, seen := w.firsts[dbRound-back]; !seen {
+			if fi, ok, err := w.ct.catchpointStore.SelectCatchpointFirstStageInfo(context.Background(), basics.Round(dbRound-back)); err == nil && ok {
+				w.firsts[dbRound-back] = fi
+			}
+		}
+	}
 	logs := w.sink.take()
 	w.trieErrs += len(vc14TrieErrRe.FindAllString(logs, -1))
 	labels := vL()
@@ -734,7 +858,7 @@ func (w *vc14World) observe() []interface{} {
 
 // ---------- schedules ----------
 // style 0: commit after every block; 1: every k blocks; 2: random rounds, some far behind; 3: long
-// gaps and reloads; the last commit of every style brings the DB to the end of the history
+// gaps and reloads; 4: lazy flushes most of which are interrupted by a power loss (k ops); the last commit of every style brings the DB to the end of the history
 func vc14RunLedger(t *testing.T, r *vRand, h *vc14History, cfg vc14Cfg, style int, script []interface{}, stats map[string]int) (*vc14World, []interface{}) {
 	w := vc14Open(t, h, cfg)
 	ops := vL()
@@ -752,6 +876,22 @@ func vc14RunLedger(t *testing.T, r *vRand, h *vc14History, cfg vc14Cfg, style in
 			w.opReload()
 			ops = append(ops, vL(vSym("r"), w.observe()))
 			stats["op_reload"]++
+		case "k":
+			before := uint64(w.ml.trackers.getDbRound())
+			if w.opCrash(op[1].(uint64)) {
+				stats["op_crash_in_commit"]++
+				// did the interrupted commit go PAST a catchpoint round?
+				after := uint64(w.ml.trackers.getDbRound())
+				for R := before + 1; R < after; R++ {
+					if R%w.cfg.interval == 0 && R > w.h.proto.lookback {
+						stats["op_crash_spanning_catchpoint"]++
+						break
+					}
+				}
+			} else {
+				stats["op_crash_no_commit"]++
+			}
+			ops = append(ops, vL(vSym("k"), op[1], w.observe()))
 		}
 	}
 	if script != nil {
@@ -778,12 +918,20 @@ func vc14RunLedger(t *testing.T, r *vRand, h *vc14History, cfg vc14Cfg, style in
 			if r.Intn(9) == 0 {
 				do(vL(vSym("r")))
 			}
-		default:
+		case 3:
 			if r.Intn(7) == 0 {
 				do(vL(vSym("c"), latest))
 			}
 			if r.Intn(6) == 0 {
 				do(vL(vSym("r")))
+			}
+		default: // power losses: lazy flushes (they run past catchpoint rounds), every other one interrupted
+			if i%k == 0 || r.Intn(5) == 0 {
+				if r.Intn(3) == 0 {
+					do(vL(vSym("c"), latest))
+				} else {
+					do(vL(vSym("k"), latest))
+				}
 			}
 		}
 	}
@@ -885,7 +1033,14 @@ func TestVerifC14(t *testing.T) {
 			if j == 0 { // the reference node: production trie configuration, eager commits
 				cfg.mem, cfg.memID = vc14MemConfigs[0], 0
 			}
-			w, ops := vc14RunLedger(t, r, h, cfg, j%4, nil, stats)
+			style := j % 4
+			if j == nledgers-1 && os.Getenv("VERIF_C14_CRASH") != "0" { // the node that loses power
+				cfg.crash, cfg.tracking, style = true, 1, 4
+				if cfg.interval > 6 {
+					cfg.interval = 4
+				}
+			}
+			w, ops := vc14RunLedger(t, r, h, cfg, style, nil, stats)
 			ledgers = append(ledgers, vc14LedgerTerm(cfg, ops))
 			worlds = append(worlds, w)
 			stats["labels"] += len(w.labels)
